@@ -32,7 +32,7 @@ ASSUMPTIONS = [
     "caller's business)",
     "FilePool is given paths of existing files (or modes that create them); a failing open() is outside the statement",
 ]
-NCASES = {"quick": 520, "thorough": 8000}
+NCASES = {"quick": 520, "thorough": 16000}
 NSHARDS = 16
 SHARD_TIMEOUT = {"quick": 900, "thorough": 3600}
 MOD = "vf.checks.c20"
